@@ -3,7 +3,7 @@ import SqlgrepModel.Model.ExtractSpec
 /-
 Driver handler for kind `extract` (C01, C02, C06):
 
-  extract (pats (xNAME cap|split)…) (cols COL…) (line xHEX) (res R…) (json J|nojson) (f64 (xTEXT BITS|none)…)
+  extract (pats (xNAME cap|split xREGEX)…) (cols COL…) (line xHEX) (res R…) (json J|nojson) (f64 (xTEXT BITS|none)…)
     COL     = (col PARSING TYPE nullable trim convert micro DEFAULT)      flags 0|1, DEFAULT = none | VALUE
     PARSING = (re xNAME IDX) | (multi (xNAME IDX)…) | (json STEP…)        STEP = (f xNAME) | (i N)
     R       = none | (cap G…) with G = none | xHEX | (split xHEX…)         one per pattern, in order
@@ -74,8 +74,8 @@ def columnOfSexp : Sexp → Option Column
   | _ => none
 
 def patternOfSexp : Sexp → Option Pattern
-  | .list [n, .atom "cap"] => n.bytes?.map (fun n => { name := n, mode := .captures })
-  | .list [n, .atom "split"] => n.bytes?.map (fun n => { name := n, mode := .split })
+  | .list [n, .atom "cap", re] => do pure { name := (← n.bytes?), regex := (← re.bytes?), mode := .captures }
+  | .list [n, .atom "split", re] => do pure { name := (← n.bytes?), regex := (← re.bytes?), mode := .split }
   | _ => none
 
 inductive PatRes where
@@ -116,11 +116,13 @@ def run (args : List Sexp) : Option String := do
       | .list [.atom "json", j] => (jsonOfSexp j).map some
       | _ => none
     let tbl ← (← section? "f64" f64).mapM f64EntryOfSexp
+    -- the regex crate's answers, keyed by (source text, mode)
+    let answers : List ((Text × RegexMode) × PatRes) := (pats.zip res).map (fun pr => ((pr.1.regex, pr.1.mode), pr.2))
     let o : Oracles := { parseF64 := fun t => (tbl.lookup t).join }
     let lo : LineOracle :=
       { line := line,
-        captures := fun k => match res[k]? with | some (.cap gs) => some gs | _ => none,
-        split := fun k => match res[k]? with | some (.split fs) => fs | _ => [],
+        captures := fun re => match answers.lookup (re, RegexMode.captures) with | some (PatRes.cap gs) => some gs | _ => none,
+        split := fun re => match answers.lookup (re, RegexMode.split) with | some (PatRes.split fs) => fs | _ => [],
         json := json }
     let d : TableDef := { patterns := pats, columns := cols }
     let spec := Value.rowToWire (specRow o d (ParsingInput.new d lo))
